@@ -855,3 +855,90 @@ def coherence_failures(st, skip_slots=(), lazy_row_ok=False):
             elif exp[1] != v[2][c][1]:
                 out.append({'slot': i, 'col': c, 'cached': v[2][c][1], 'row': exp[1]})
     return out
+
+
+# ------------------------------------------------------------------ shrinking a failing history
+SLOT_MAKERS = ('create', 'get', 'byalt', 'unpickle', 'fk')
+
+
+def neutral(op):
+    """an operation with no effect that keeps the numbering of the slots"""
+    core = core_op(op)
+    t = core[0]
+    if t in SLOT_MAKERS or (t in ('select', 'join') and core[3] is not None):
+        return ['get', 0, 987654]          # raises not-found: leaves an empty slot
+    return ['drop', 987654]                # no such slot: nothing happens
+
+
+def is_neutral(op):
+    return op in (['get', 0, 987654], ['drop', 987654])
+
+
+def shrink(P, case, run, budget=40):
+    """ddmin-like: neutralise chunks of operations, cut the history after the failing step, drop trailing no-ops.
+    P = the plugin (oracle, classify); run(cases) -> observations on the implementation."""
+    if not isinstance(case, dict) or 'ops' not in case or case.get('rel') or case.get('inherit'):
+        return None
+
+    def failing(c, o):
+        if not isinstance(o, dict) or 'steps' not in o:
+            return None
+        f = P.oracle(c, o)
+        if f and (not hasattr(P, 'classify') or P.classify(c, o, f) is None):
+            return f
+        return None
+
+    def cut(c, f):
+        n = f.get('step') if isinstance(f, dict) else None
+        if isinstance(n, int) and n + 1 < len(c['ops']):
+            return dict(c, ops=c['ops'][:n + 1])
+        return c
+    best = case
+    o = run([best])[0]
+    f = failing(best, o)
+    if not f:
+        return None
+    c2 = cut(best, f)
+    if c2 is not best:
+        o2 = run([c2])[0]
+        f2 = failing(c2, o2)
+        if f2:
+            best, o, f = c2, o2, f2
+    size = max(1, len(best['ops']) // 2)
+    rounds = 0
+    while size >= 1 and rounds < budget:
+        rounds += 1
+        ops = best['ops']
+        cands = []
+        for start in range(0, len(ops), size):
+            chunk = range(start, min(len(ops), start + size))
+            if all(is_neutral(ops[j]) for j in chunk):
+                continue
+            cands.append(dict(best, ops=[neutral(x) if j in chunk else x for j, x in enumerate(ops)]))
+        if not cands:
+            break
+        obs = run(cands)
+        hit = None
+        for c, ob in zip(cands, obs):
+            fc = failing(c, ob)
+            if fc:
+                hit = (cut(c, fc), fc)
+                break
+        if hit:
+            c, fc = hit
+            ob = run([c])[0]
+            fc2 = failing(c, ob)
+            if fc2:
+                best, o, f = c, ob, fc2
+                continue
+        if size == 1:
+            break
+        size = max(1, size // 2)
+    # drop no-ops that create no slot (they do not shift any handle)
+    slim = dict(best, ops=[x for x in best['ops'] if x != ['drop', 987654]])
+    if len(slim['ops']) < len(best['ops']):
+        ob = run([slim])[0]
+        fs = failing(slim, ob)
+        if fs:
+            best, o, f = slim, ob, fs
+    return best, o, f
